@@ -215,6 +215,7 @@ def run(tier):
         run_schema(ck, m, ck.rng, n_docs, max_depth=ck.rng.choice([2, 3, 3, 4]),
                    p_bad=ck.rng.choice([0.0, 0.03, 0.05, 0.08]))
     custom_scalar_arguments(ck, 150 if tier == "quick" else 2000)
+    derived_schema_history(ck)
     ck.rule = ("type-directed generation: per schema (objects, interfaces incl. interface hierarchies, unions, enums, "
                "list/non-null nesting up to 2 lists, input objects incl. OneOf and nested defaults, arguments with defaults) "
                "a batch of operations (object literals with variables inside, aliases that "
@@ -226,6 +227,46 @@ def run(tier):
                "and once more after all other requests of its schema, on the same schema and document objects. "
                "non-trivial = the document uses at least one of the listed features or the response has errors")
     return ck.finish()
+
+
+def derived_schema_history(ck):
+    """Memoised coerced defaults must not leak between a schema and schemas derived from it: a request on the
+    extended/sorted schema answers the same whether or not requests ran on the base schema before."""
+    from graphql import build_schema, extend_schema, graphql_sync, lexicographic_sort_schema, parse
+    bases = [
+        ("input I { a: Int = 1 } type Query { f(x: I = {}): String }", "extend input I { b: Int = 2 }", "{ f }"),
+        ("input I { a: Int = 1  n: J = {} } input J { c: String = \"s\" } type Query { f(x: I = {n: {}}): String }",
+         "extend input J { d: [Int] = [1, 2] }", "{ f }"),
+        ("input I { a: Int = 1 } type Query { f(x: [I] = [{}, {a: 5}]): String g(y: I = {a: 3}): String }",
+         "extend input I { z: Boolean = true }", "{ f g }"),
+        ("enum E { A B } input I { e: E = A } type Query { f(x: I = {}): String }", "extend input I { e2: E = B }", "{ f }"),
+        ("input I { a: Int = 1 } type Query { f: String } directive @d(x: I = {}) on FIELD", "extend input I { b: Int = 2 } extend type Query { h(x: I = {}): String }", "{ h }"),
+    ]
+
+    def run(schema, q):
+        root = {k: (lambda info, **kw: repr(sorted(kw.items(), key=str))) for k in ("f", "g", "h")}
+        r = graphql_sync(schema, q, root_value=root)
+        return r.formatted
+
+    for sdl, ext, q in bases:
+        for derive in ("extend", "extend-then-sort"):
+            fresh = extend_schema(build_schema(sdl), parse(ext))
+            base = build_schema(sdl)
+            warm = [run(base, qq) for qq in ("{ f }", "{ __typename }")]
+            derived = extend_schema(base, parse(ext))
+            if derive != "extend":
+                fresh, derived = lexicographic_sort_schema(fresh), lexicographic_sort_schema(derived)
+            want, got = run(fresh, q), run(derived, q)
+            again = [run(base, qq) for qq in ("{ f }", "{ __typename }")]
+            ck.note_case(("derived-history", sdl, ext, derive), nontrivial=True)
+            if want != got:
+                ck.violation(f"derived-schema-history:{sdl}:{ext}:{derive}",
+                             f"a schema derived ({derive}) from a schema that already served requests answers {got}, the same schema derived from a fresh base answers {want}",
+                             {"relation": "responses do not depend on earlier requests (memoised defaults)", "sdl": sdl, "extension": ext,
+                              "document": q, "impl": got, "reference": want})
+            if warm != again:
+                ck.violation(f"derived-schema-history-base:{sdl}:{ext}:{derive}", "deriving a schema changed the answers of the base schema",
+                             {"relation": "responses do not depend on earlier requests", "sdl": sdl, "impl": again, "reference": warm})
 
 
 def custom_scalar_arguments(ck, n):
